@@ -289,6 +289,9 @@ package gohlslib
 //@        && has(s.server.pathHandlers, partPath(s.prefix, s.id, s.nextPartID)))
 //@   ensures forall(k, old(has(s.server.pathHandlers, k)) ==> has(s.server.pathHandlers, k))
 //@   ensures storage.fileOpen(old(s.nextPart.segment).storage) && handlersOK(s.server)
+// C18: the URL table only grows by the published part and the hinted next part, and only in the Low-Latency variant
+//@   ensures [C05,C18] local s.variant != MuxerVariantLowLatency ==> forall(k, has(s.server.pathHandlers, k) ==> old(has(s.server.pathHandlers, k)))
+//@   ensures [C05,C18] local forall(k, (has(s.server.pathHandlers, k) && !old(has(s.server.pathHandlers, k))) ==> (k == old(s.nextPart).path || k == partPath(s.prefix, s.id, s.nextPartID)))
 //@   ensures [C03,C19] local (result == nil && s.isLeading && s.variant == MuxerVariantLowLatency) ==> (s.partTargetDuration >= old(s.nextPart).getDuration()
 //@        && forall(j, (0 <= j && j < len(old(s.nextPart.segment).parts)) ==> s.partTargetDuration >= old(s.nextPart.segment).parts[j].getDuration())
 //@        && forall(i, j, (0 <= i && i < len(s.segments) && isF(s.segments[i]) && 0 <= j && j < len(asF(s.segments[i]).parts)) ==> s.partTargetDuration >= asF(s.segments[i]).parts[j].getDuration()))
